@@ -109,6 +109,13 @@ Proof.
         -- rewrite Hf. reflexivity.
 Qed.
 
+Lemma C15_first_line content :
+  fst (first_line content) ++ snd (first_line content) = content
+  /\ ((exists a, ~ In 10 a /\ content = a ++ 10 :: snd (first_line content)
+                 /\ fst (first_line content) = a ++ [10])
+      \/ (~ In 10 content /\ first_line content = (content, []))).
+Proof. split; [apply first_line_app|apply first_line_shape]. Qed.
+
 Lemma has_lf_In content : has_lf content = true <-> In 10 content.
 Proof.
   unfold has_lf. rewrite existsb_exists. split.
